@@ -55,7 +55,7 @@ pub fn stuck_operator_terms() -> Vec<(String, M)> {
 // A variable applied to two and three arguments drawn from a pool of convertible but differently
 // written integers: conversion has to compare every argument of a neutral spine up to reduction, not
 // only the last one.
-fn neutral_spine_terms() -> Vec<(String, M)> {
+pub fn neutral_spine_terms() -> Vec<(String, M)> {
     let g = crate::model::grammar::Grammar::load();
     let pool = ["2", "(1 + 1)", "(z : int = 2; z)", "(if true then 2 else 3)", "3"];
     let mut texts = vec![];
@@ -65,6 +65,16 @@ fn neutral_spine_terms() -> Vec<(String, M)> {
             for c in pool {
                 texts.push(format!("(r : int -> int -> int -> int) => r {a} {b} {c}"));
             }
+        }
+    }
+    // the same arguments inside the *condition* of a conditional that is stuck on a neutral application:
+    // two such conditionals are convertible when their conditions are, up to reduction inside the
+    // arguments (weak-head normalisation does not reach there), and their branches are
+    for a in pool {
+        texts.push(format!("(r : int -> bool) => if r {a} then 1 else 2"));
+        texts.push(format!("(r : int -> bool) => if r {a} then 2 else 1"));
+        for b in ["2", "(1 + 1)", "3"] {
+            texts.push(format!("(r : int -> int -> bool) => if r {a} {b} then {b} else 0"));
         }
     }
     texts
